@@ -62,6 +62,8 @@ var c01ProbeSupport = map[string]string{
 	"plib":   "{% macro m(a, b = n) %}[{{ a }}/{{ b }}]{% endmacro %}{% macro q(a) %}<{{ a|upper }}>{% endmacro %}",
 	"plib2":  "{% macro m(a) %}({{ a }}){% endmacro %}",
 	"pinner": "{{ t|upper }}",
+	"pdeep1": "D1[{% include 'pdeep2' with {'t': 'x'} only %}{{ s }}]",
+	"pdeep2": "D2({{ t }}{% include 'pinc' with {'s': t, 'n': 1} only %}{{ t }})",
 }
 
 func c01ProbeCatalogue() []c01Probe {
@@ -112,6 +114,11 @@ func c01ProbeCatalogue() []c01Probe {
 			"{% set v = 'cap' ~ n %}{{ v }}", "{% if n > 3 %}big{% elseif n > 1 %}mid{% else %}small{% endif %}", "{% do 1 + 1 %}done"},
 		// sandboxed include next to the same filter outside the sandbox
 		{"{% include 'pinner' sandboxed %}", "{{ t|upper }}{% include 'pinc' %}", "{{ t|upper }}", "{% include 'pinner' %}"},
+		// failures in the middle of a construct, next to renders that keep several contexts alive at once
+		{"{% include 'pinc' with {'s': xs[9]} %}", "{% include 'pinc' with {'s': 1 / 0} %}", "{% include 'pinc' with {'s': nosuchfn()} only %}", "{% import 'plib' as L %}{{ L.m(1 / 0) }}",
+			"{% for x in xs %}{% include 'pinc' with {'s': x / 0} %}{% endfor %}", "{{ html }}{% include 'pdeep1' %}{{ s }}", "{% include 'pdeep1' with {'s': 'Q'} %}{{ html|e }}",
+			"{% for x in xs %}{% include 'pdeep1' with {'s': x} only %}{% endfor %}{{ n }}", "{% extends 'pbase' %}{% block b %}{% include 'pdeep1' %}{{ parent() }}{% endblock %}",
+			"{% import 'plib' as L %}{% include 'pdeep1' %}{{ L.m(s) }}", "{% include 'pinc' with {'s': mp.zz.deeper.x} %}", "{% set q = 1 / 0 %}{% include 'pdeep1' %}"},
 		// failures
 		{"{{ n|nosuchfilter }}", "{{ nosuchfn(1) }}", "{% include 'nothere' %}", "{{ 1 / 0 }}", "{{ range(1, 2, 0) }}"},
 	}
